@@ -17,15 +17,20 @@ class ParallelEvaluator(Evaluator):
 
     def evaluate_async(self, problem: Problem, individuals: Iterable[Individual[Any, Any]]) -> Generator[Individual, Any, Any]:
         indivs = list(individuals)
+        pending: list[Individual] = []
+        for ind in indivs:
+            if not ind.has_fitness(problem) and not any(ind is p for p in pending):
+                pending.append(ind)
 
         def mapper(ind: Individual) -> Fitness:
             return self.eval_single(problem, ind)
 
         from pathos.multiprocessing import ProcessingPool as Pool  # pyright: ignore
 
-        with Pool(len(indivs)) as pool:
-            fitnesses = pool.map(mapper, indivs)
-            for i, f in zip(indivs, fitnesses):
-                i.set_fitness(problem, f)
-                self.register_evaluation()
-                yield i
+        if pending:
+            with Pool(len(pending)) as pool:
+                fitnesses = pool.map(mapper, pending)
+                for i, f in zip(pending, fitnesses):
+                    i.set_fitness(problem, f)
+                    self.register_evaluation()
+        yield from indivs
